@@ -69,61 +69,81 @@ class Collector:
         st, rel = an.state_before_term(b)
         callee = t.get('callee') or ''
         if pk == 'index':
-            # slice[range] / str[range]: the range aggregate is the 2nd argument
+            # slice[range] / str[range]
             from model import op_place, place_key
-            from analyses import last_def_in_block
             if len(t['args']) == 2:
-                rp = op_place(t['args'][1])
                 base_len = an.len_of_ref_operand(st, t['args'][0])
                 bp = op_place(t['args'][0])
-                bty = an.ty_of_place(bp) if bp is not None else None
-                is_str = False
-                tt = bty
+                tt = an.ty_of_place(bp) if bp is not None else None
                 for _ in range(3):
-                    if tt is None:
-                        break
-                    if tt['k'] in ('ref', 'ptr'):
+                    if tt is not None and tt['k'] in ('ref', 'ptr'):
                         tt = fn.types[tt['to']]
-                    else:
-                        break
                 if tt is not None and tt['k'] == 'str':
-                    is_str = True
-                if rp is not None and not rp['p']:
-                    d = None
-                    cur = b
-                    for _ in range(3):
-                        d = last_def_in_block(fn, cur, rp['l'])
-                        if d is not None:
-                            break
-                        ps = fn.pred(cur)
-                        if len(ps) != 1:
-                            break
-                        cur = ps[0]
-                    if d is not None and d['rv']['k'] == 'agg' and d['rv'].get('ak') == 'adt':
-                        adt = d['rv']['adt']
-                        st2, _ = an.state_before_term(cur) if cur != b else (st, rel)
-                        ops = [an.read_operand(st2, o) for o in d['rv']['ops']]
-                        lo = hi = None
-                        if adt.endswith('::Range'):
-                            lo, hi = ops[0], ops[1]
-                        elif adt.endswith('::RangeTo'):
-                            lo, hi = (0, 0), ops[0]
-                        elif adt.endswith('::RangeFrom'):
-                            lo, hi = ops[0], base_len
-                        elif adt.endswith('::RangeFull'):
-                            return 'ok', 'full range'
-                        if is_str:
-                            return 'fail', 'str range %s..%s: byte offsets must be char boundaries' % (fmt(lo), fmt(hi))
-                        if lo is not None and hi is not None and base_len is not None:
-                            if lo[1] <= hi[0] and hi[1] <= base_len[0]:
-                                return 'ok', 'range %s..%s within len %s' % (fmt(lo), fmt(hi), fmt(base_len))
-                            return 'fail', 'range %s..%s not provably within len %s' % (fmt(lo), fmt(hi), fmt(base_len))
+                    return 'fail', 'str range: byte offsets must be char boundaries'
+                rinfo = an.range_operand(st, t['args'][1], b, base_len, want_ops=True)
+                if rinfo is not None:
+                    lo, hi, lo_op, hi_op = rinfo
+                    if lo is not None and hi is not None:
+                        ordered = lo[1] <= hi[0]
+                        if not ordered and lo_op is not None and hi_op is not None:
+                            lh, ll = an.linear_of_operand(st, hi_op), an.linear_of_operand(st, lo_op)
+                            if lh is not None and ll is not None:
+                                d = dict(lh[0])
+                                for sk, c in ll[0].items():
+                                    d[sk] = d.get(sk, 0) - c
+                                if all(c >= 0 for c in d.values()) and lh[1] - ll[1] >= 0:
+                                    ordered = True  # end = start + (non-negative unsigned terms)
+                            if an.known_le(st, lo_op, hi_op):
+                                ordered = True
+                        if hi_op is None and lo_op is not None:
+                            # x.. : start <= len
+                            ordered = True
+                            within = lo[1] <= base_len[0] or self.le_len(an, st, lo_op, t['args'][0])
+                        else:
+                            within = hi[1] <= base_len[0] or (hi_op is not None and self.le_len(an, st, hi_op, t['args'][0]))
+                        if ordered and within:
+                            return 'ok', 'range %s..%s within len %s' % (fmt(lo), fmt(hi), fmt(base_len))
+                        return 'fail', 'range %s..%s not provably within len %s' % (fmt(lo), fmt(hi), fmt(base_len))
             return 'fail', 'range / index expression not understood'
         if pk == 'unwrap':
+            from model import op_place, place_key
+            p0 = op_place(t['args'][0]) if t['args'] else None
+            if p0 is not None and ('issome', place_key(p0)) in st:
+                return 'ok', 'the value is Some by construction (digit below the radix)'
             return 'fail', 'unwrap/expect on a value not known to be Some/Ok'
         if pk == 'slice-op':
+            if callee.endswith('copy_from_slice') and len(t['args']) == 2:
+                a = an.len_of_ref_operand(st, t['args'][0])
+                b2 = an.len_of_ref_operand(st, t['args'][1])
+                if a[0] == a[1] == b2[0] == b2[1]:
+                    return 'ok', 'both slices have length %d' % a[0]
+                from model import op_place, place_key
+                k1 = [st.get(('lensym', kk)) for kk in an.keys_of(t['args'][0])]
+                k2 = [st.get(('lensym', kk)) for kk in an.keys_of(t['args'][1])]
+                if any(x is not None and x in k2 for x in k1):
+                    return 'ok', 'both slices have the same symbolic length'
+                return 'fail', 'slice lengths %s and %s not known to be equal' % (fmt(a), fmt(b2))
             return 'fail', 'slice lengths not known to match'
         return 'fail', 'explicit panic reachable'
+
+    def le_len(self, an, st, idx_op, slice_op):
+        """is idx known to be <= len(slice) symbolically (idx <= L where L = slice.len())?"""
+        from model import op_place, place_key
+        sp = op_place(slice_op)
+        if sp is None:
+            return False
+        root = an.root_of_ref(place_key(sp))
+        roots = {root, place_key(sp)}
+        if root[1] and root[1][-1] == ('deref', ):
+            roots.add((root[0], root[1][:-1]))
+            roots.add(an.root_of_ref((root[0], root[1][:-1])))
+        for k2, v in st.items():
+            if k2 and k2[0] == 'lenof' and v in roots:
+                L = k2[1]
+                for x in an.keys_of(idx_op):
+                    if ('le', x, L) in st or ('lt', x, L) in st:
+                        return True
+        return False
 
     def _add(self, fn, b, t, kind, verdict, why, an):
         key = (fn.name, b)
@@ -157,9 +177,11 @@ def load_discharge_table():
     return json.load(open(path))
 
 
-def table_lookup(table, fname, site):
+def table_lookup(table, fname, site, config=None):
     for e in table:
         if e['fn'] != fname or e['kind'] != site['kind']:
+            continue
+        if config is not None and 'configs' in e and config not in e['configs']:
             continue
         m = e.get('match') or {}
         toks = site.get('toks', set())
@@ -227,7 +249,7 @@ def report_sites(rep, rule, col, table, scope_pred=lambda fn, site: True, prop_n
         is_control = fn.crate != 'fatfs'
         c = classify(site)
         snip = site['span']['snip']
-        ent = table_lookup(table, fname, site)
+        ent = table_lookup(table, fname, site, getattr(col.facts, 'config', None))
         how = None
         if c == 'ok':
             how = 'auto-with-invariant' if site['used_inv'] else 'auto'
